@@ -3,9 +3,14 @@ package main
 import (
 	"context"
 	"fmt"
+	"net/http"
+	"net/http/httptest"
+	"strings"
 	"time"
 
 	goat "github.com/avos-io/goat"
+	"github.com/coder/websocket"
+	"google.golang.org/protobuf/proto"
 
 	"github.com/avos-io/goat/gen/goatorepo"
 )
@@ -199,5 +204,129 @@ func c17ChanPeerCloses(r *Run) {
 		c17Leaks++
 		c17Floor = n
 		r.Violate("chanpeer.leak", "schedule", "goroutines of the proxy were left behind after its context was cancelled", in, where, fmt.Sprintf("%d goat goroutines, as before NewProxy", base))
+	}
+}
+
+// c17WsStuckTalker: a peer attached over the websocket transport never reads but keeps sending, while
+// the forwarding loop is slowed by the header intercepter. Traffic for the peer piles up until the
+// proxy's writer for it is blocked inside the transport and the peer's reader is waiting to hand its
+// next envelope to the forwarding loop. Traffic between two other peers keeps flowing meanwhile, and
+// after the proxy's context is cancelled Serve returns and nothing of the proxy stays behind.
+func c17WsStuckTalker(r *Run) {
+	if !r.Want("wsstuck") || c17Leaks > 2 {
+		return
+	}
+	base := c17Base()
+	in := map[string]any{"peer": "websocket peer that never reads and keeps sending", "intercepter": "20 ms per envelope", "backlog": "12 envelopes of 4 MiB for the stuck peer"}
+	r.Progress("wsstuck", in)
+	release := make(chan struct{})
+	accepted := make(chan struct{})
+	ts := httptest.NewServer(http.HandlerFunc(func(w http.ResponseWriter, req *http.Request) {
+		c, err := websocket.Accept(w, req, nil)
+		if err != nil {
+			return
+		}
+		close(accepted)
+		defer c.CloseNow()
+		for i := uint64(1); ; i++ {
+			data, _ := proto.Marshal(pxGoodEnv(i, "stuck", "sink"))
+			if c.Write(req.Context(), websocket.MessageBinary, data) != nil {
+				break
+			}
+			select {
+			case <-release:
+				return
+			case <-time.After(time.Millisecond):
+			}
+		}
+		<-release
+	}))
+	defer ts.Close()
+	defer close(release)
+	ws, _, err := websocket.Dial(context.Background(), "ws"+strings.TrimPrefix(ts.URL, "http"), nil)
+	if err != nil {
+		r.Count("c17.wsstuck.skipped")
+		return
+	}
+	defer ws.CloseNow()
+	<-accepted
+
+	ctx, cancel := context.WithCancel(context.Background())
+	defer cancel()
+	proxy := goat.NewProxy(ctx, "px",
+		func(id string) (goat.RpcReadWriter, error) { return nil, context.Canceled },
+		func(hdr *goatorepo.RequestHeader) error { time.Sleep(20 * time.Millisecond); return nil },
+		func(id string, reason error) {})
+	src, a, b, sink := NewScript(16), NewScript(64), NewScript(64), NewScript(4096)
+	proxy.AddClient("stuck", goat.NewGoatOverWebsocket(ws))
+	proxy.AddClient("src", src)
+	proxy.AddClient("a", a)
+	proxy.AddClient("b", b)
+	proxy.AddClient("sink", sink)
+	stopSink := make(chan struct{})
+	go func() {
+		for {
+			select {
+			case <-sink.Out:
+			case <-stopSink:
+				return
+			}
+		}
+	}()
+	defer close(stopSink)
+	served := make(chan struct{})
+	go func() { defer close(served); proxy.Serve() }()
+
+	payload := make([]byte, 4<<20)
+	fed := true
+	for i := 0; i < 12 && fed; i++ {
+		e := pxGoodEnv(uint64(i+1), "src", "stuck")
+		e.Body = &goatorepo.Body{Data: payload}
+		select {
+		case src.In <- e:
+		case <-time.After(hangTimeout):
+			fed = false
+		}
+	}
+	blocked := false
+	for deadline := time.Now().Add(5 * time.Second); fed && !blocked && time.Now().Before(deadline); {
+		if strings.Contains(goroutineDump(), "goatOverWebsocket).Write") {
+			blocked = true
+		} else {
+			time.Sleep(20 * time.Millisecond)
+		}
+	}
+	if !fed || !blocked {
+		// the precondition (a writer blocked in the websocket) was not reached: nothing to decide
+		r.Count("c17.wsstuck.precondition-missed")
+	} else {
+		// the stuck peer delays nobody else
+		for k := uint64(1); k <= 5; k++ {
+			a.In <- pxGoodEnv(100+k, "a", "b")
+			select {
+			case e := <-b.Out:
+				if e.Id != 100+k {
+					r.Violate("wsstuck.forward", "ops", "unexpected envelope forwarded between the two healthy peers", in, e.Id, 100+k)
+				}
+			case <-time.After(hangTimeout):
+				r.Violate("wsstuck.forward", "ops", "traffic between two healthy peers stopped while a websocket peer was stuck", in, goroutineDump(), nil)
+				k = 6
+			}
+		}
+		time.Sleep(200 * time.Millisecond)
+		r.Count("c17.wsstuck")
+	}
+	r.Eval("wsstuck", true)
+	cancel()
+	for _, s := range []*Script{src, a, b, sink} {
+		s.FailRead(errInjectedRead)
+	}
+	if !within(hangTimeout, func() { <-served }) {
+		r.Violate("wsstuck.serve", "schedule", "Serve did not return after the proxy's context was cancelled", in, goroutineDump(), nil)
+	}
+	if n, where := settleGoroutines(base); n > base {
+		c17Leaks++
+		c17Floor = n
+		r.Violate("wsstuck.leak", "schedule", "goroutines of the proxy were left behind after its context was cancelled (a websocket peer was stuck and talking)", in, where, fmt.Sprintf("%d goat goroutines, as before NewProxy", base))
 	}
 }
